@@ -450,6 +450,53 @@ def r8_indexing(ctx, F):
     ctx.floor("C07.R8", "direct slice indexing in value-facing bodies", n, 7, inventory=True)
 
 
+SLICE_CALL = re.compile(r"ops::Index(Mut)?<.*> for (str|\[T\])>::index(_mut)?$|"
+                        r"Vec<T, A> as std::ops::Index(Mut)?<I>>::index(_mut)?$|String as std::ops::Index(Mut)?<.*>>::index(_mut)?$")
+SLICE_PASS = re.compile(r"(Try>::branch$|Option::<.*>::(unwrap\w*|expect|map|and_then|ok_or\w*)$|"
+                        r"Result::<.*>::(unwrap\w*|expect|ok|map)$|as_ref$|cmp::min$|cmp::max$|Ord>::(min|max)$|FromResidual)")
+# where a slice bound may come from without review: std functions that return a position inside (or the length of) a
+# buffer, the validated index conversions of values/index.rs, and constants
+BOUND_SRC_OK = re.compile(r"^(const|str::(find|rfind|len|char_indices)|\[T\]::len|slice::len|Vec::len|String::len|"
+                          r"char::len_utf8|Utf8Error::valid_up_to|mem::size_of|Enumerate as Iterator::next|"
+                          r"\w+ as Iterator::position|CharIndices as Iterator::next|index::convert_slice_indices|"
+                          r"index::convert_index|agg:.*)$")
+SLICE_REVIEWED = {
+    # (function, bound source) -> reason
+}
+
+
+def r8b_slicing(ctx, F):
+    """range slicing (`x[a..b]`, `x[a..]`, `x[..b]`: panics when a bound is out of range or not on a char boundary) in
+    value-facing code takes its bounds only from position-producing std functions, the validated index conversions,
+    or constants"""
+    n = 0
+    for f in F.fns.values():
+        if f.crate != "starlark" or not re.search(r"src/values/types/|src/values/index|src/stdlib/", f.span):
+            continue
+        for c in f.calls:
+            if c.bb in f.cleanup or c.indirect or not SLICE_CALL.search(c.name) or "Range" not in c.full:
+                continue
+            n += 1
+            src = set()
+            for o in origins(f, c.args[1], pass_calls=SLICE_PASS):
+                if o[0] == "agg":
+                    for op in " | ".join(o[1].ops).split(" | "):
+                        for o2 in origins(f, op, pass_calls=SLICE_PASS):
+                            src.add(short_fn(o2[1].name) if o2[0] == "call" else
+                                    (o2[0] if o2[0] != "agg" else "agg:" + o2[1].kind.split()[-1]))
+                else:
+                    src.add(short_fn(o[1].name) if o[0] == "call" else o[0])
+            t = short_fn(top_fn(F, f).qpath)
+            bad = sorted(x for x in src if not BOUND_SRC_OK.match(x) and (t, x) not in SLICE_REVIEWED)
+            kind = re.search(r"Range\w*", c.full).group(0)
+            ctx.check(not bad, "C07.R8", "slice-bounds:%s:%s:%s" % (t, kind, "+".join(sorted(src))),
+                      "slice bounds come from position-producing std functions / validated conversions / constants",
+                      "`%s` slices a buffer (`%s`) with a bound computed by %s: nothing ties that bound to the buffer's "
+                      "length (or to a char boundary), so an unusual value panics instead of returning an error; clamp "
+                      "with `get(..)` or derive the bound from the buffer" % (t, kind, bad), fn=f, line=c.line)
+    ctx.floor("C07.R8", "range-slicing sites in value-facing code", n, 15, inventory=True)
+
+
 def r6_writer(ctx, F):
     for name in ("alloc_slot", "alloc_slots", "alloc_slots_for_exprs"):
         f = F.one(r"starlark::eval::bc::writer::BcWriter::<'f>::%s$" % name)
@@ -579,6 +626,37 @@ def r10_module_slots(ctx, F):
                   "Module::%s writes a slot without allocating it first" % nm, fn=f)
 
 
+def r11_depth_counter(ctx, F, rule="C07.R11"):
+    """the thread-local recursion-depth counter of equals/compare (values/stack_guard.rs) is raised only together with
+    the guard that lowers it again: outside StackGuard's Drop, every path from a write of the counter to a return
+    constructs a StackGuard. A raise without a guard (e.g. on the path that reports "too many recursion levels") leaks
+    one level per failure, so what a thread can evaluate depends on what it evaluated before."""
+    fs = [f for f in F.fns.values() if f.crate == "starlark" and "values/stack_guard.rs" in f.span]
+    n = 0
+    for f in fs:
+        t = top_fn(F, f)
+        if re.search(r"StackGuard as std::ops::Drop>::drop", t.qpath):
+            continue
+        sets = [c for c in f.calls if c.bb not in f.cleanup and re.search(r"cell::Cell::<T>::(set|replace|update)$", c.name)
+                and "u32" in c.full]
+        for c in sets:
+            n += 1
+            guards = [st.bb for st in f.stmts if st.kind.endswith("stack_guard::StackGuard::StackGuard")
+                      or st.kind.endswith("stack_guard::StackGuard")]
+            ctx.check(bool(guards) and f.must_pass(c.bb, guards, f.returns()),
+                      rule, "depth-raise-has-guard:" + short_fn(f.qpath),
+                      "every path from the counter write to a return builds the StackGuard that undoes it",
+                      "`%s` writes the thread-local depth counter and can return without building a StackGuard: the "
+                      "level is never given back (each \"too many recursion levels\" error lowers the limit of that "
+                      "thread for good)" % short_fn(f.qpath), fn=f, line=c.line)
+    ctx.floor(rule, "writes of the depth counter outside Drop", n, 1)
+    dr = F.one(r"<values::stack_guard::StackGuard as std::ops::Drop>::drop$")
+    cl = list(F.closures_of(dr))
+    ctx.check(any(re.search(r"Cell::<T>::set$", c.name) for g in [dr] + cl for c in g.calls), rule,
+              "guard-drop-lowers", "dropping the guard writes the counter back",
+              "StackGuard::drop no longer restores the depth counter", fn=dr)
+
+
 def op_name(k):
     return {"Add": "+", "Sub": "-", "Mul": "*"}[k.rsplit(":", 2)[1]]
 
@@ -595,5 +673,7 @@ def run(ctx):
     r6_writer(ctx, F)
     r7_negation(ctx, F)
     r8_indexing(ctx, F)
+    r8b_slicing(ctx, F)
     r9_signed_arith(ctx, F)
     r10_module_slots(ctx, F)
+    r11_depth_counter(ctx, F)
